@@ -28,6 +28,8 @@ VARIABLES las,        \* "init" | "serving" | "returned"
           sess,       \* connection -> "none" | "hs" | "est" | "listen" | "finish" | "done"
           outcome,    \* connection -> "est" | "drop" | "failed" | "err" | "stall"   (how its handshake ends;
                       \*   "drop" = it is established and the client later goes away without finishing;
+                      \*   "gone" = a first envelope in the wrong state from a client that leaves at once: the
+                      \*            handshake returns without error, the session neither established nor failed;
                       \*   a stalled client never answers: only the cancelled serve context ends it)
           closer,     \* "idle" | "c1" | "c2" | "done"
           closeAt,    \* Close starts after this many steps at the earliest
@@ -110,7 +112,7 @@ SessHandshake(c) ==
   /\ (outcome[c] = "stall" => ctxDone)
   /\ LET o == IF ctxDone THEN "err" ELSE outcome[c] IN
      /\ sess' = [sess EXCEPT ![c] = IF o \in {"est", "drop"} THEN "est" ELSE "done"]
-     /\ Note([Ev("hs") EXCEPT !.s = c, !.res = IF o = "drop" THEN "est" ELSE o])
+     /\ Note([Ev("hs") EXCEPT !.s = c, !.res = IF o = "drop" THEN "est" ELSE IF o = "gone" THEN "failed" ELSE o])
   /\ Step("sess:" \o c, "Handshake")
   /\ UNCHANGED <<las, ctxDone, lisOpen, qClosed, queue, backlog, acc, accErr, cons, outcome, closer, closeAt, panicked>>
 
@@ -178,7 +180,7 @@ Init == /\ las = "init" /\ ctxDone = FALSE /\ lisOpen = [l \in Lis |-> TRUE] /\ 
         /\ queue = <<>> /\ backlog = [l \in Lis |-> <<>>]
         /\ acc = [l \in Lis |-> [pc |-> "accept", holds |-> ""]] /\ accErr = ""
         /\ cons = "select" /\ sess = [c \in Conns |-> "none"]
-        /\ outcome \in [Conns -> {"est", "drop", "failed", "err", "stall"}]
+        /\ outcome \in [Conns -> {"est", "drop", "failed", "gone", "err", "stall"}]
         /\ closer = "idle" /\ closeAt \in CloseAfter /\ panicked = FALSE /\ hist = <<>> /\ obs = <<>>
 
 Next == /\ ~HasEnd(obs)
